@@ -208,8 +208,7 @@ Proof.
     destruct (reg s); inversion H; reflexivity.
   - destruct (nth_error (thr s) i) as [[]|]; try discriminate. inversion H; reflexivity.
   - destruct (glock s); [discriminate|].
-    destruct (nth_error (thr s) i) as [[]|]; try discriminate.
-    destruct (reg s); [|discriminate]. inversion H; reflexivity.
+    destruct (nth_error (thr s) i) as [[]|]; try discriminate. inversion H; reflexivity.
   - destruct (nth_error (thr s) i) as [[]|]; try discriminate. inversion H; reflexivity.
   - destruct (glock s); [discriminate|].
     destruct (nth_error (thr s) i) as [[]|]; try discriminate;
@@ -231,3 +230,11 @@ Proof. intros R. apply await_ok_inv, inv_reachable, R. Qed.
 
 Theorem no_crash_reachable s : reachable true s -> crashed s = false.
 Proof. intros R. apply no_crash_inv, inv_reachable, R. Qed.
+
+(* after ThreadGroup::shut_down (and any concurrent ThreadPool::shut_down) has released the
+   group lock, the pool's flag is set as well *)
+Theorem group_shutdown_closes_pool s : reachable true s -> gsd s = true -> glock s = false -> psd s = true.
+Proof.
+  intros R Hg Hl. pose proof (inv_reachable s R) as I.
+  destruct (i_reg s I (i_gsd_reg s I Hg)) as [H|H]; [exact H | congruence].
+Qed.
